@@ -68,21 +68,21 @@ def _walk_expr(e: ast.AST, conds, loops, defs, is_effect, out, stmt, in_try):
             l2 = l2 + [(g.target, g.iter)]
             for f in g.ifs:
                 _walk_expr(f, c2, l2, defs, is_effect, out, stmt, in_try)
-                c2 = c2 + [(f, True)]
+                c2 = c2 + [_cond(f, True)]
         elts = [e.key, e.value] if isinstance(e, ast.DictComp) else [e.elt]
         for x in elts:
             _walk_expr(x, c2, l2, defs, is_effect, out, stmt, in_try)
         return
     if isinstance(e, ast.IfExp):
         _walk_expr(e.test, conds, loops, defs, is_effect, out, stmt, in_try)
-        _walk_expr(e.body, conds + [(e.test, True)], loops, defs, is_effect, out, stmt, in_try)
-        _walk_expr(e.orelse, conds + [(e.test, False)], loops, defs, is_effect, out, stmt, in_try)
+        _walk_expr(e.body, conds + [_cond(e.test, True)], loops, defs, is_effect, out, stmt, in_try)
+        _walk_expr(e.orelse, conds + [_cond(e.test, False)], loops, defs, is_effect, out, stmt, in_try)
         return
     if isinstance(e, ast.BoolOp):
         c2 = list(conds)
         for v in e.values:
             _walk_expr(v, c2, loops, defs, is_effect, out, stmt, in_try)
-            c2 = c2 + [(v, isinstance(e.op, ast.And))]
+            c2 = c2 + [_cond(v, isinstance(e.op, ast.And))]
         return
     for c in ast.iter_child_nodes(e):
         _walk_expr(c, conds, loops, defs, is_effect, out, stmt, in_try)
@@ -96,6 +96,13 @@ def _assigned_names(st: ast.stmt) -> List[str]:
     return out
 
 
+def _cond(test, pol):
+    """path conditions are stored without leading `not`s: (not X, True) is (X, False) — rules never depend on how a branch was phrased"""
+    while isinstance(test, ast.UnaryOp) and isinstance(test.op, ast.Not):
+        test, pol = test.operand, not pol
+    return (test, pol)
+
+
 def walk_block(stmts, conds, loops, defs, is_effect, out, in_try=False):
     conds = list(conds)
     defs = dict(defs)
@@ -105,18 +112,18 @@ def walk_block(stmts, conds, loops, defs, is_effect, out, in_try=False):
         for h in _header_exprs(st):
             _walk_expr(h, conds, loops, defs, is_effect, out, st, in_try)
         if isinstance(st, ast.If):
-            after_body = walk_block(st.body, conds + [(st.test, True)], loops, defs, is_effect, out, in_try)
-            after_else = walk_block(st.orelse, conds + [(st.test, False)], loops, defs, is_effect, out, in_try)
+            after_body = walk_block(st.body, conds + [_cond(st.test, True)], loops, defs, is_effect, out, in_try)
+            after_else = walk_block(st.orelse, conds + [_cond(st.test, False)], loops, defs, is_effect, out, in_try)
             if terminates(st.body) and not terminates(st.orelse):
                 # execution continues only through the else path: keep everything known at its end
                 # (this carries the negations of an `elif ...: raise` chain)
                 conds = after_else
                 if _only_raises(st.body):
-                    _VALIDATION.add(id(st.test))
+                    _VALIDATION.add(id(_cond(st.test, True)[0]))
             elif st.orelse and terminates(st.orelse) and not terminates(st.body):
                 conds = after_body
                 if _only_raises(st.orelse):
-                    _VALIDATION.add(id(st.test))
+                    _VALIDATION.add(id(_cond(st.test, True)[0]))
             for n in _assigned_names(st):
                 defs.pop(n, None)
         elif isinstance(st, ast.For):
@@ -131,7 +138,7 @@ def walk_block(stmts, conds, loops, defs, is_effect, out, in_try=False):
             inner = dict(defs)
             for n in _assigned_names(st):
                 inner.pop(n, None)
-            walk_block(st.body, conds + [(st.test, True)], loops, inner, is_effect, out, in_try)
+            walk_block(st.body, conds + [_cond(st.test, True)], loops, inner, is_effect, out, in_try)
             for n in _assigned_names(st):
                 defs.pop(n, None)
         elif isinstance(st, ast.With):
